@@ -413,3 +413,4 @@ MANIFEST = {
             "makes it inexact by ~4e-8 relative, covered only by the [T] streams (tolerance 1e-6 of the coordinate scale).",
     "technique": "Lean 4 theorems over a hand-written model + differential correspondence with the real code + metamorphic tests",
 }
+MANIFEST["note"] += " " + py2lean.manifest_note("sliced")
